@@ -6,7 +6,7 @@ CONSTANTS
   MaxZero = 1
   GrowSet = {64}
   MaxItems = 3
-  Alpha <- AlphaBuf
+  Alpha <- AlphaBufSmall
   MaxPieces = 3
   Export = TRUE
 INVARIANTS WindowInv FragmentationFree PropsHold ExportInv
